@@ -22,6 +22,13 @@ HARNESS = {
         "libs/log/src/log/object.cpp",
         "libs/log/src/log/out.cpp",
         "libs/log/src/log/parameters.cpp",
+        "libs/log/src/log/parameters_no_function.cpp",
+        "libs/log/src/log/level_from_string.cpp",
+        "libs/log/src/log/level_input.cpp",
+        "libs/log/src/log/level_output.cpp",
+        "libs/log/src/log/default_level_streams.cpp",
+        "libs/log/src/log/default_stream.cpp",
+        "libs/log/src/log/format/time_stamp.cpp",
         # libs/log, impl part
         "libs/log/impl/src/log/impl/convert_level.cpp",
         "libs/log/impl/src/log/impl/find_child.cpp",
@@ -32,6 +39,10 @@ HARNESS = {
         "libs/core/src/exception.cpp",
         "libs/core/src/from_std_string.cpp",
         "libs/core/src/io/cerr.cpp",
+        "libs/core/src/io/clog.cpp",
+        "libs/core/src/time/localtime.cpp",
+        "libs/core/src/time/std_time.cpp",
+        "libs/core/src/to_std_string.cpp",
         "libs/core/src/assert/information.cpp",
         "libs/core/src/insert_extract_locale.cpp",
     ],
@@ -43,22 +54,29 @@ HARNESS = {
 # the second harness: the same library sources under ThreadSanitizer, several threads on one context
 HARNESS_TSAN = {
     "src": "harness/c19_tsan.cpp",
-    "repo_srcs": [x for x in HARNESS["repo_srcs"] if x != "libs/core/src/exception.cpp"] + ["libs/log/src/log/parameters_no_function.cpp"],
+    "repo_srcs": [x for x in HARNESS["repo_srcs"] if x != "libs/core/src/exception.cpp"],
     "flags": ["-DENABLE_THREADS", "-pthread"],
     "libs": [],
     "tsan": True,
 }
-EXTRA_HARNESSES = [HARNESS_TSAN]
+# the third harness: k <= 3 threads, a handful of operations, every order of them (forced by a relaxed turn counter, or released together)
+HARNESS_SCHED = dict(HARNESS_TSAN, src="harness/c19_sched.cpp")
+EXTRA_HARNESSES = [HARNESS_TSAN, HARNESS_SCHED]
 
 TIE = ("hand-written model (FcpptModel/Model/C19.lean) mirroring context.cpp / context_tree_node.cpp / find_or_create_child.cpp / "
-       "object.cpp / level_stream.cpp / chain.cpp / tree_formatter.cpp + differential correspondence of whole operation histories "
-       "against the real library (ASan/UBSan); the interleaving model (Model/C19/Conc.lean) is tied to the code by a sampled "
-       "ThreadSanitizer run of 2-6 threads on one context whose observed levels are checked against the linearisation rule")
-RULE = ("a case is one history (`reset`, `ctx <root> <streams>`, then up to 60 operations on one context: set / get / object "
-        "construction through the three constructors / level+enabled of an object / log through object::log and through the "
-        "FCPPT_LOG_<LEVEL> macros); the result line of every operation is compared with the model's. evaluations counts operation "
-        "lines. An op is non-trivial if it is an observation (get, lvl, objr/objl/objc, log, logm) with a well-formed result; "
-        "distinct = distinct (op line, result line) pairs. The TSan runs are counted separately in coverage.tsan.")
+       "object.cpp / level_stream.cpp / chain.cpp / tree_formatter.cpp / location.cpp / level names and io / format factories + "
+       "differential correspondence against the real library (ASan/UBSan): EVERY history of <= 3 state-changing operations over the 15 "
+       "locations of depth <= 3 over two names and three levels (4 operations over depth 2; digest lines with refine), exhaustive "
+       "emission / text / API matrices, random histories; the interleaving model (Model/C19/Conc.lean) is tied to the code by (a) a "
+       "schedule harness that forces every order of k <= 3 operations of k threads through a relaxed turn counter (exact comparison "
+       "with the sequential model, ThreadSanitizer sees only the library's own synchronisation) and releases them together (joint "
+       "result must be the joint result of one of the k! orders), hammer runs, and (b) sampled ThreadSanitizer runs of 2-6 threads "
+       "whose observed levels are checked against the linearisation rule")
+RULE = ("history batches: a case is one history (`reset`, `ctx <root> <streams>`, then operations on one context); the result line of "
+        "every operation is compared with the model's. `small-histories`: one `enum` line stands for all histories with a given prefix "
+        "over a given alphabet and counts as that many evaluations; its result is the number of histories and an FNV digest of every "
+        "result line of every history. An op is non-trivial if it is an observation with a well-formed result; distinct = distinct "
+        "(op line, result line) pairs. The concurrent runs are counted separately in coverage.tsan and coverage.sched.")
 ASSUMPTIONS = [
     "a reference to a tree node is modelled by the node's location (children live in a std::list and are never erased, so references stay valid)",
     "the atomic level of a node is a natural number read/written in one step (single-copy atomicity); std::mutex = at most one owner",
@@ -67,7 +85,8 @@ ASSUMPTIONS = [
     "concurrent claim is PARTIAL: proved for the transcribed interleaving model only; real schedulers, the C++ memory model and "
     "libstdc++'s mutex/atomic are outside the model, TSan is the sampled witness",
 ]
-TRUSTED = ["harness/c19.cpp, harness/c19_tsan.cpp (its timestamp-based justification rule assumes x86-TSO) and the line protocol (vh.hpp, Proto.lean)",
+TRUSTED = ["harness/c19.cpp, harness/c19_tsan.cpp (its timestamp-based justification rule assumes x86-TSO), harness/c19_sched.cpp (forced orders through a "
+           "relaxed turn counter: x86-TSO, no compiler motion of relaxed accesses across the library calls) and the line protocol (vh.hpp, Proto.lean)",
            "g++ 12 + ASan/UBSan (memory safety) and ThreadSanitizer (data races) as dynamic witnesses",
            "the transcription of the lock/atomic discipline in FcpptModel/Model/C19/Conc.lean (reviewed against context.cpp/object.cpp, not proved)"]
 MANIFEST = {
@@ -78,12 +97,15 @@ MANIFEST = {
                    "object_level_eq_latest_prefix, enabled_iff, emits_iff, prefix_order), by an invariant proved over all histories. A "
                    "small-step interleaving model of the lock/atomic discipline is proved race-free on the tree structure (lock_discipline, "
                    "no_conflicting_unsynchronised_accesses) and every level load is proved justified by a linearisation of the overlapping "
-                   "sets (observed_level_justified, get_linearised). The sequential model is tied to the code by differential "
-                   "correspondence over random histories (length <= 60, depth <= 3, 3 names per level); the concurrent one by TSan runs."),
+                   "sets (observed_level_justified, get_linearised; exact when no set is in progress). The rest of libs/log's public API "
+                   "(location, level names and stream operators, format factories, level_stream, default streams, parameters, the FCPPT_LOG_* "
+                   "macros' lazy evaluation) is modelled with its own theorems. The sequential model is tied to the code by differential "
+                   "correspondence over ALL histories of <= 3 operations (depth 3) / 4 operations (depth 2) and random histories (length <= 60); "
+                   "the concurrent one by forcing every order of k <= 3 operations under ThreadSanitizer, released rounds and sampled TSan runs."),
     "level_note": ("Concurrent claim partial: proved about the transcribed step system only (schedulers, C++ memory model, libstdc++ mutex/atomic not "
                    "modelled; unlocked reads of write-once node fields by tree_formatter are shown to hit existing nodes only). Trusted: Lean kernel + "
                    "propext/Classical.choice/Quot.sound; model fidelity outside exercised inputs; harnesses; TSan/ASan as sampled witnesses."),
-    "technique": "Lean 4 proof (invariant over histories; interleaving semantics) + differential correspondence of random histories (ASan/UBSan) + ThreadSanitizer stress harness with linearisation check",
+    "technique": "Lean 4 proof (invariant over histories; interleaving semantics) + differential correspondence of all small and of random histories (ASan/UBSan) + forced-order schedule exploration and ThreadSanitizer stress harness with linearisation checks",
     "design_ref": "DESIGN.md §5 C19",
 }
 
@@ -98,6 +120,10 @@ def extra_checks(binp, rng, tier, ev):
     if tbin is None:
         return [{"kind": "broken-correspondence", "what": "TSan harness does not build against /repo: " + str(info.get("error", ""))[-1500:]}]
     thorough = tier == "thorough"
+    # VERIF_C19_PART=sched|tsan runs only one of the two concurrent ties (for looking at one of them; the check runs both)
+    part = os.environ.get("VERIF_C19_PART", "")
+    if part == "sched":
+        return sched_checks(thorough, ev)
     r = rng.fork("tsan")
     ops = []
     for k in range(6000 if thorough else 500):
@@ -128,6 +154,224 @@ def extra_checks(binp, rng, tier, ev):
     cov["violating_runs"] = sum(1 for l in lines if l is not None and not l.startswith("ok ") and l != "NOT-RUN")
     ev["coverage"]["tsan"] = cov
     ev["coverage"]["generator_op_mix"] = dict(GEN_STATS)
+    if part != "tsan":
+        viol += sched_checks(thorough, ev)
+    return viol
+
+
+# ---- small-scope schedule exploration (harness/c19_sched.cpp) ---------------------------------------------------
+def interleavings(progs):
+    """all merges of the per-thread programs (lists) that keep each program's order; items are (tid, op)"""
+    if all(not p for p in progs):
+        return [[]]
+    out = []
+    for t, p in enumerate(progs):
+        if p:
+            rest = [q if i != t else q[1:] for i, q in enumerate(progs)]
+            out += [[(t, p[0])] + w for w in interleavings(rest)]
+    return out
+
+def is_ctor(op):
+    return op.startswith("obj")
+
+def static_ids(setup, progs, post):
+    """static object index of every creating operation: setup, then the threads' programs in thread order, then post"""
+    ids, n = {}, 0
+    for key, ops in [("s", setup)] + [(t, p) for t, p in enumerate(progs)] + [("p", post)]:
+        for i, op in enumerate(ops):
+            if is_ctor(op):
+                ids[(key, i)] = n
+                n += 1
+    return ids
+
+def driver_history(root, setup, seq, post, locs, ids_of):
+    """the sequential history for the Lean driver for one order `seq` = [(tid, index in program, op)];
+    returns (lines, extractors): extractor(result line) -> the harness' text for that step"""
+    lines = ["reset", f"ctx {root} D"]
+    ex = [None, None]
+    gid = {}          # static id -> driver id (creation order of THIS history)
+    def tr(key, i, op):
+        t = op.split(",")
+        if t[0] in ("objr", "objl"):
+            gid[ids_of[(key, i)]] = len(gid)
+            return " ".join(t), (lambda r: "ok" if r.startswith("obj=") else r)
+        if t[0] == "objc":
+            line = f"objc {gid[int(t[1])]} {t[2]} {t[3]}"
+            gid[ids_of[(key, i)]] = len(gid)
+            return line, (lambda r: "ok" if r.startswith("obj=") else r)
+        if t[0] == "lvl":
+            return f"lvl {gid[int(t[1])]}", (lambda r: r.split()[0])
+        if t[0] == "en":
+            k = int(t[2])
+            return f"lvl {gid[int(t[1])]}", (lambda r: "en=" + r.split()[1][3:][k] if r.startswith("lvl=") else r)
+        if t[0] in ("log", "logm"):
+            return f"{t[0]} {gid[int(t[1])]} {t[2]} {t[3]}", (lambda r: r.replace(" ", "\\s"))
+        return " ".join(t), (lambda r: r)
+    for i, op in enumerate(setup):
+        l, e = tr("s", i, op); lines.append(l); ex.append(None)
+    step_pos = {}
+    for (tid, i, op) in seq:
+        l, e = tr(tid, i, op); step_pos[(tid, i)] = len(lines); lines.append(l); ex.append(e)
+    post_pos = []
+    for i, op in enumerate(post):
+        l, e = tr("p", i, op); post_pos.append(len(lines)); lines.append(l); ex.append(e)
+    fin = len(lines)
+    lines += [f"get {l}" for l in locs]
+    ex += [None] * len(locs)
+    return lines, ex, step_pos, post_pos, fin
+
+def joint(results, off, ex, order, step_pos, post_pos, fin, nloc):
+    """joint result text in the harness' format; `order` = [(tid, i)] in the order the line lists the steps; `off` = where this
+    history starts in the driver's results"""
+    steps = "@".join(ex[step_pos[k]](results[off + step_pos[k]]) for k in order)
+    post = "@".join(ex[p](results[off + p]) for p in post_pos)
+    final = ",".join(r[4:] if r.startswith("lvl=") else r for r in results[off + fin:off + fin + nloc])
+    return f"{steps}!{post}!{final}"
+
+
+SWEEP = ["-", "a", "b", "a.a", "a.b", "b.a", "a.b.a"]
+SETUPS = [[], ["objl,a,b,-"], ["set,a,1", "objr,a,F"]]
+COMMON = ["set,-,1", "set,-,-", "set,a,1", "set,a,-", "set,a.b,4", "set,b,1",
+          "get,-", "get,a", "get,a.b", "get,a.b.a", "get,b",
+          "objr,a,-", "objr,b,F", "objl,a,b,-", "objl,a.b,a,F", "objl,b,a,-"]
+COMMON_SMALL = ["set,a,1", "set,-,-", "get,a.b", "objr,a,-", "objl,a,b,-"]
+
+def owner_ops(tid, small=False):
+    """operations on object 0 (created by main in the setup, handed to this thread)"""
+    ops = ["lvl,0", f"log,0,{tid},m"] if small else ["lvl,0", "en,0,3", f"log,0,{tid},m", f"logm,0,{tid + 3},m", "objc,0,a,-"]
+    return ops
+
+def post_ops(nobj_static):
+    look = [f"lvl,{i}" for i in range(nobj_static)]
+    return look + ["set,a,2"] + look + ["set,b,5"] + look + ["set,a.b,0"] + look
+
+def scenarios(thorough):
+    """(kind, setup, progs, post): kind 'single' = one operation per thread (forced in every order and released), 'multi' =
+    two operations per thread (forced in every interleaving)"""
+    out = []
+    for setup in SETUPS:
+        has_obj = any(is_ctor(o) for o in setup)
+        a0 = COMMON + (owner_ops(0) if has_obj else [])
+        for x in a0:
+            for y in COMMON:
+                out.append(("single", setup, [[x], [y]]))
+        small0 = COMMON_SMALL + (owner_ops(0, True) if has_obj else [])
+        t0, t12 = (a0, COMMON) if thorough else (small0, COMMON_SMALL)
+        for x in t0:
+            for y in t12:
+                for z in t12:
+                    out.append(("single", setup, [[x], [y], [z]]))
+        # two steps per thread: the second step of a thread uses what its first one made (# = its own object)
+        n0 = sum(1 for o in setup if is_ctor(o))
+        p0 = [["objr,a,-", "lvl,#"], ["objl,a,b,F", "log,#,0,m"], ["objl,a.b,a,-", "en,#,3"], ["get,a.b", "get,a"], ["set,a,1", "get,a.b"], ["set,a.b,-", "set,a,4"]]
+        if has_obj:
+            p0 += [["lvl,0", "lvl,0"], ["log,0,0,m", "lvl,0"], ["objc,0,b,-", "lvl,#"]]
+        p1 = [["set,a,1", "set,a.b,-"], ["set,-,-", "set,a,4"], ["objr,a,F", "logm,#,1,m"], ["objl,a,b,-", "en,#,1"], ["get,a", "set,a,1"], ["set,a,-", "get,a.b.a"], ["objl,a,b,G", "lvl,#"]]
+        for x in p0:
+            for y in p1:
+                # static ids: setup objects, then thread 0's, then thread 1's
+                c0 = sum(1 for o in x if is_ctor(o))
+                xs = [o.replace("#", str(n0)) for o in x]
+                ys = [o.replace("#", str(n0 + c0)) for o in y]
+                out.append(("multi", setup, [xs, ys]))
+    return out
+
+def plan(thorough, repeat):
+    """-> (sched lines, driver ops, checks); a check = (line index, [ (driver offset, ex, order, step_pos, post_pos, fin) per allowed order ])"""
+    lines, dops, checks = [], [], []
+    for kind, setup, progs in scenarios(thorough):
+        ids = static_ids(setup, progs, [])
+        nstatic = len(ids)
+        post = post_ops(nstatic)
+        ids = static_ids(setup, progs, post)
+        listed = [(t, i) for t, p in enumerate(progs) for i in range(len(p))]          # thread order
+        tagged = [[(t, i, op) for i, op in enumerate(p)] for t, p in enumerate(progs)]
+        allowed = []
+        for seq in interleavings(tagged):
+            seq = [x[1] for x in seq]                                                     # (tid, i, op)
+            hist, ex, step_pos, post_pos, fin = driver_history("3", setup, seq, post, SWEEP, ids)
+            entry = (len(dops), ex, step_pos, post_pos, fin)
+            dops += hist
+            allowed.append(entry)
+            # forced: this very order
+            steps = ";".join(f"{t}:{op}" for (t, i, op) in seq)
+            lines.append(f"sched f 1 3 {';'.join(setup) or '-'} {steps} {';'.join(post)} {','.join(SWEEP)}")
+            checks.append((len(lines) - 1, [(t, i) for (t, i, op) in seq], [entry]))
+        # the macros are `if (enabled) log`: two loads, not one atomic step - forced orders only
+        if kind == "single" and not any(p[0].startswith("logm,") for p in progs):
+            steps = ";".join(f"{t}:{p[0]}" for t, p in enumerate(progs))
+            lines.append(f"sched r {repeat} 3 {';'.join(setup) or '-'} {steps} {';'.join(post)} {','.join(SWEEP)}")
+            checks.append((len(lines) - 1, listed, allowed))
+    return lines, dops, checks
+
+def verdicts(lines, out, dres, checks):
+    """compare; returns list of (line, observed, allowed texts)"""
+    bad = []
+    for li, order, allowed in checks:
+        texts = []
+        for off, ex, step_pos, post_pos, fin in allowed:
+            texts.append(joint(dres, off, ex, order, step_pos, post_pos, fin, len(SWEEP)))
+        o = out[li]
+        if o is None or not o.startswith("ok "):
+            bad.append((lines[li], o, texts)); continue
+        for got in o[3:].split("#"):
+            if got not in texts:
+                bad.append((lines[li], got, texts)); break
+    return bad
+
+
+def sched_checks(thorough, ev):
+    """Every order of k <= 3 operations on one context, executed by k threads: forced (exact comparison with the sequential
+    model of that order, ThreadSanitizer sees only the library's own synchronisation) and released together (the joint result
+    must be the joint result of one of the k! orders)."""
+    import sys
+    import time
+    from vlib import harness as hb
+    from vlib.runner import run_driver, run_harness
+    t0 = time.time()
+    sbin, info = hb.build(HARNESS_SCHED)
+    if sbin is None:
+        return [{"kind": "broken-correspondence", "what": "schedule harness does not build against /repo: " + str(info.get("error", ""))[-1500:]}]
+    lines, dops, checks = plan(thorough, 16 if thorough else 8)
+    dres = run_driver(sys.modules[__name__], dops, history=True)
+    # maximal contention on one subtree: a setter alternating two levels, an unlocked loader and a locked getter below it
+    n = 20000 if thorough else 4000
+    hammers = [f"hammer {n} {root} {loc} {v1} {v2} {below}"
+               for root, loc, v1, v2, below in (("3", "a", "1", "4", "b"), ("-", "-", "0", "5", "a.b"), ("2", "a.b", "-", "3", "-"),
+                                                ("5", "-", "1", "-", "a"), ("0", "a", "5", "2", "-"), ("3", "a", "4", "1", "b.a"))
+               for _ in range(4 if thorough else 2)]
+    hout, hdeaths = run_harness(sbin, hammers, history=False, parts=6)
+    out, deaths = run_harness(sbin, lines, history=False, parts=8)
+    deaths = deaths + hdeaths
+    viol = []
+    for line, got in zip(hammers, hout):
+        if got != "NOT-RUN" and not (got or "").startswith("ok hammer") and len(viol) < 2:
+            viol.append({"kind": "input", "batch": "sched-hammer", "batch_kind": "stateless", "ops": [line],
+                         "expected": ["ok hammer … (every level seen is the root level or one of the two levels being set)"],
+                         "observed": [str(got)],
+                         "what": f"a level that no order of the calls produces was observed (or ThreadSanitizer reported a race): {str(got)[:300]} "
+                                 f"-- rerun (schedule dependent): echo '{line}' | TSAN_OPTIONS=exitcode=96:halt_on_error=1 {sbin}"})
+    bad = verdicts(lines, out, dres, checks)
+    for line, got, allowed in bad:
+        if got == "NOT-RUN":
+            continue
+        if len(viol) < 3:
+            mode = "forced order" if line.split()[1] == "f" else "released together"
+            viol.append({"kind": "input", "batch": "sched-orders", "batch_kind": "stateless", "ops": [line],
+                         "expected": ["ok " + " | ".join(allowed[:6])], "observed": [str(got)],
+                         "what": (f"{mode}: the joint result is not the sequential model's result for "
+                                  + ("this order" if mode == "forced order" else "any order of the steps")
+                                  + f", or ThreadSanitizer reported a race: {str(got)[:300]} -- rerun: echo '{line}' | "
+                                  f"TSAN_OPTIONS=exitcode=96:halt_on_error=1 {sbin}")})
+    forced = sum(1 for l in lines if l.split()[1] == "f")
+    ev["coverage"]["sched"] = {
+        "lines": len(lines), "forced_orders": forced, "released_scenarios": len(lines) - forced,
+        "released_rounds": (len(lines) - forced) * (16 if thorough else 8),
+        "released_with_several_joint_results": sum(1 for l, o in zip(lines, out) if l.split()[1] == "r" and o and o.startswith("ok ") and "#" in o),
+        "hammer_runs": len(hammers), "hammer_sets_per_run": n,
+        "hammer_observers_seeing_3_values": sum((o or "").count("3") for o in hout if (o or "").startswith("ok hammer")),
+        "driver_lines": len(dops), "deaths": len(deaths), "disagreeing": len([b for b in bad if b[1] != "NOT-RUN"]),
+        "seconds": round(time.time() - t0, 1), "harness": {k: info.get(k) for k in ("cached", "key", "seconds")}}
     return viol
 
 
@@ -135,7 +379,8 @@ def extra_checks(binp, rng, tier, ev):
 NAMES = ["a", "b", "c"]          # the same three names at every depth
 CFGS = ["D", "N", "M"]
 TAGS = ["F", "G", "Hx"]
-OBSERVATIONS = ("get", "lvl", "objr", "objl", "objc", "log", "logm")
+OBSERVATIONS = ("get", "lvl", "objr", "objl", "objc", "log", "logm", "logp", "loga", "fmt", "sink", "cstr", "enum", "case",
+                "lfs", "lts", "lout", "lin", "loc", "chain", "fn", "ts", "ls", "dstream", "dls", "params", "pnf")
 MAX_OPS = 60
 DEPTHS = [0, 1, 1, 2, 2, 2, 3, 3]   # depth of a freshly drawn location (the root wipes everything: keep it rarer)
 
@@ -172,8 +417,15 @@ def loc_str(loc):
     return ".".join(loc) if loc else "-"
 
 
+# names that are related to each other: prefix, suffix, same first / last character, different case (a lookup that compares
+# less than the whole name finds the wrong child)
+RELATED_NAMES = ["ab", "aa", "ba", "A", "abc"]
+
+
 def rand_name(r):
-    return "_" if r.chance(3, 100) else r.choice(NAMES)
+    if r.chance(3, 100):
+        return "_"
+    return r.choice(RELATED_NAMES) if r.chance(1, 8) else r.choice(NAMES)
 
 
 def rand_level(r):
@@ -181,7 +433,15 @@ def rand_level(r):
 
 
 def rand_fmt(r):
-    return "-" if r.chance(1, 2) else r.choice(TAGS)
+    return "-" if r.chance(1, 2) else r.choice(TAGS + ["P:p", "I:[:]", "L:2"])
+
+
+FMTX = ["-", "-", "F", "P:p", "P:", "I:<:>", "I::", "L:0", "L:3", "L:5"]
+
+
+def rand_fmtx(r):
+    """formatter descriptions incl. the library's own formatter factories (prefix / inserter / default_level)"""
+    return r.choice(FMTX)
 
 
 def rand_loc(r, used, max_depth=4):
@@ -211,13 +471,14 @@ def random_case(r):
         ops.append(ctx_line(r))
     used = []       # locations used so far in this case
     objs = []       # node location of every object, by id
+    alive = []      # ids of the objects not destroyed yet
     n = r.range(3, MAX_OPS)
 
     def new_obj():
         k = r.below(100)
         name = rand_name(r)
-        if objs and k < 30:
-            pid = r.below(len(objs))
+        if alive and k < 30:
+            pid = r.choice(alive)
             node = objs[pid] + [name]
             line = f"objc {pid} {name} {rand_fmt(r)}"
         elif k < 55:
@@ -227,6 +488,7 @@ def random_case(r):
             loc = rand_loc(r, used, 3)
             node = loc + [name]
             line = f"objl {loc_str(loc)} {name} {rand_fmt(r)}"
+        alive.append(len(objs))
         objs.append(node)
         used.append(node)
         return line
@@ -236,15 +498,28 @@ def random_case(r):
         if k < 25:
             loc = [] if r.chance(1, 25) else rand_loc(r, used)     # a set on the root rewrites the whole tree
             ops.append(f"set {loc_str(loc)} {rand_level(r)}")
-        elif k < 45:
+        elif k < 43:
             ops.append(f"get {loc_str(rand_loc(r, used))}")
-        elif k < 65 or not objs:
+        elif k < 45:
+            ops.append(f"cstr {r.below(6)} {rand_fmtx(r)} m{r.below(1000)}")
+        elif k < 63 or not alive:
             ops.append(new_obj())
-        elif k < 75:
-            ops.append(f"lvl {r.below(len(objs))}")
+        elif k < 65:
+            # destroy a log object: its node stays in the tree, its children (objects and nodes) are unaffected
+            i = r.choice(alive)
+            alive.remove(i)
+            ops.append(f"del {i}")
+        elif k < 73:
+            ops.append(f"lvl {r.choice(alive)}")
+        elif k < 76:
+            ops.append(f"fmt {r.choice(alive)} t{r.below(100)}")
+        elif k < 79:
+            ops.append(f"sink {r.choice(alive)} {r.below(6)} {rand_fmtx(r)} m{r.below(1000)}")
+        elif k < 82:
+            ops.append(f"logp {r.choice(alive)} {r.below(6)} p{r.below(100)} {'q' * r.below(12)}x")
         else:
             op = "log" if r.chance(1, 2) else "logm"
-            ops.append(f"{op} {r.below(len(objs))} {r.below(6)} m{r.below(1000)}")
+            ops.append(f"{op} {r.choice(alive)} {r.below(6)} m{r.below(1000)}")
     return ops
 
 
@@ -365,6 +640,272 @@ DOCS_EXAMPLE = [
 ]
 
 
+# ---- systematic small-scope batches ------------------------------------------------------------------------------
+def paths(names, depth):
+    """all locations over `names` up to that depth, shortest first"""
+    out, layer = [[]], [[]]
+    for _ in range(depth):
+        layer = [p + [n] for p in layer for n in names]
+        out += layer
+    return out
+
+
+def alphabet(names, depth, levels, ids=(0, 1)):
+    """state-changing operations over a small scope (tokens joined by `,`): every set(loc, lvl) with |loc| <= depth, the
+    three constructors wherever the new node has depth <= `depth` (objc: the parent's depth is not limited), formatter tied
+    to the name so that both kinds occur"""
+    fmt = {names[0]: "F", names[-1]: "-"}
+    ops = [f"set,{loc_str(l)},{v}" for l in paths(names, depth) for v in levels]
+    ops += [f"objr,{n},{fmt.get(n, 'G')}" for n in names]
+    ops += [f"objl,{loc_str(l)},{n},{fmt.get(n, 'G')}" for l in paths(names, depth - 1) for n in names]
+    ops += [f"objc,{i},{n},{fmt.get(n, 'G')}" for i in ids for n in names]
+    return ops
+
+
+def creates(op):
+    return op.startswith("obj")
+
+
+def op_valid(op, nobjs):
+    return not op.startswith("objc,") or int(op.split(",")[1]) < nobjs
+
+
+def count_words(alpha, k, nobjs, memo=None):
+    """number of accepted words of length k (an objc needs its parent)"""
+    memo = {} if memo is None else memo
+    cap = 1 + max([int(o.split(",")[1]) for o in alpha if o.startswith("objc,")] + [-1])
+    key = (k, min(nobjs, cap))
+    if k == 0:
+        return 1
+    if key not in memo:
+        memo[key] = sum(count_words(alpha, k - 1, min(nobjs, cap) + (1 if creates(o) else 0), memo) for o in alpha if op_valid(o, nobjs))
+    return memo[key]
+
+
+def prefixes_of(alpha, n):
+    """all accepted words of length n, as lists"""
+    out = [[]]
+    for _ in range(n):
+        out = [w + [o] for w in out for o in alpha if op_valid(o, sum(1 for x in w if creates(x)))]
+    return out
+
+
+def enum_lines(k, split, mode, root, cfg, alpha, locs, keep=None):
+    """`enum` lines covering every history of exactly k operations over `alpha`, one line per prefix of `split` operations
+    (keep(i) -> bool selects a sample of the prefixes)"""
+    a, l = ";".join(alpha), ",".join(loc_str(x) for x in locs)
+    out = []
+    for i, w in enumerate(prefixes_of(alpha, min(split, k))):
+        if keep is None or keep(i):
+            out.append(f"enum {k - len(w)} {mode} {root} {cfg} {';'.join(w) if w else '-'} {a} {l}")
+    return out
+
+
+def _case_lines(root, cfg, pre, mode, locs):
+    """the single observations the digest of one history is made of, as `case` lines"""
+    out = []
+    nobj = 0
+    for i in range(1, len(pre) + 1):
+        head = ";".join(pre[: i - 1]) if i > 1 else "-"
+        out.append(f"case {root} {cfg} {head} {pre[i - 1]}")
+        nobj += 1 if creates(pre[i - 1]) else 0
+        if mode == "e" or i == len(pre):
+            cur = ";".join(pre[:i])
+            out += [f"case {root} {cfg} {cur} get,{l}" for l in locs]
+            for j in range(nobj):
+                out.append(f"case {root} {cfg} {cur} lvl,{j}")
+                out.append(f"case {root} {cfg} {cur} {'log' if (j + i) % 2 == 0 else 'logm'},{j},{(j + i) % 6},m")
+    if not pre:
+        out += [f"case {root} {cfg} - get,{l}" for l in locs]
+    return out
+
+
+def refine(op):
+    """enum k -> the enum k-1 lines of its one-operation extensions; enum 0 -> the `case` lines of that one history"""
+    t = op.split()
+    if not t or t[0] != "enum" or len(t) != 8:
+        return []
+    k, mode, root, cfg, pre, alpha, locs = int(t[1]), t[2], t[3], t[4], t[5], t[6].split(";"), t[7]
+    pre = [] if pre == "-" else pre.split(";")
+    if k > 0:
+        nobjs = sum(1 for x in pre if creates(x))
+        return [f"enum {k - 1} {mode} {root} {cfg} {';'.join(pre + [o])} {t[6]} {locs}" for o in alpha if op_valid(o, nobjs)]
+    return _case_lines(root, cfg, pre, mode, locs.split(","))
+
+
+_WEIGHT_MEMO = {}
+
+
+def weight(op):
+    """an `enum` line counts as the histories it runs"""
+    t = op.split()
+    if t and t[0] == "enum" and len(t) == 8:
+        key = (t[1], t[5], t[6])
+        if key not in _WEIGHT_MEMO:
+            pre = [] if t[5] == "-" else t[5].split(";")
+            _WEIGHT_MEMO[key] = count_words(t[6].split(";"), int(t[1]), sum(1 for x in pre if creates(x)))
+        return _WEIGHT_MEMO[key]
+    return 1
+
+
+AB = ["a", "b"]
+OBS3 = paths(AB, 3)                                   # what is looked at after every step: all 15 locations of depth <= 3
+OBS2 = paths(AB, 2) + [["a", "a", "a"], ["a", "b", "a"], ["b", "a", "b"], ["b", "b", "b"]]
+FULL = alphabet(AB, 3, ["1", "3", "-"])               # 45 sets + 2 + 14 + 4 = 65 operations
+MID = alphabet(AB, 2, ["1", "3", "-"])                # 21 sets + 2 + 6 + 4 = 33 operations
+SMALL = alphabet(AB, 2, ["1", "-"])                   # 14 sets + 2 + 6 + 4 = 26 operations
+EMPTY = alphabet(["a", "_"], 2, ["1", "-"])           # the same with the empty name in place of b (tree_formatter skips it)
+PREFIX = alphabet(["a", "ab"], 2, ["1", "-"])         # a name that is a proper prefix of the other one
+CASE = alphabet(["a", "A"], 2, ["1", "-"])            # names that differ in case only
+SUFFIX = alphabet(["a", "ba"], 2, ["1", "-"])         # a name that is a proper suffix of the other one
+CHAIN_LOCS = [["a"] * d for d in range(7)]            # -, a, a.a, … down to depth 6
+CHAIN = ([f"set,{loc_str(l)},{v}" for l in CHAIN_LOCS[:6] for v in ("1", "-")] + ["objr,a,F"]
+         + [f"objl,{loc_str(l)},a,-" for l in CHAIN_LOCS[:5]] + ["objc,0,a,F", "objc,1,a,-"])   # one deep chain (depth <= 5, objc beyond)
+
+
+def small_history_lines(rng, thorough):
+    """ALL histories of <= 3 operations over FULL (depth 3, three levels, root warning; observed after every step), ALL of
+    exactly 4 over MID (depth 2; observed at the end - every shorter history is there as well), of <= 3 over EMPTY, other root
+    levels / stream configurations over SMALL; a seeded 1/64 sample of the 4-operation histories over FULL (thorough: all of
+    them, the 3-operation ones without reads in between, and all 5-operation histories over SMALL)"""
+    out = []
+    for k in (0, 1, 2):
+        out += enum_lines(k, 1, "e", "3", "D", FULL, OBS3)
+        out += enum_lines(k, 1, "f", "3", "M", FULL, OBS3)        # observed at the end only (no reads in between)
+    out += enum_lines(3, 2, "e", "3", "D", FULL, OBS3)
+    for k in (3, 4):
+        out += enum_lines(k, 2, "f", "3", "D", MID, OBS2)
+    for root, cfg in (("-", "N"), ("1", "M")):
+        out += enum_lines(3, 1, "e", root, cfg, SMALL, OBS2)
+    out += enum_lines(3, 1, "e", "3", "D", EMPTY, paths(["a", "_"], 2) + [["a", "_", "a"], ["_", "_", "_"]])
+    out += enum_lines(3, 1, "e", "3", "D", PREFIX, paths(["a", "ab"], 2) + [["ab", "a", "ab"], ["a", "ab", "a"], ["b"], ["abc"], ["a", "b"]])
+    for alpha, names in ((CASE, ["a", "A"]), (SUFFIX, ["a", "ba"])):
+        out += enum_lines(3, 1, "e", "3", "D", alpha, paths(names, 2) + [[names[1], names[0], names[1]], ["b"], [names[1] + "a"]])
+    out += enum_lines(3, 1, "e", "3", "D", CHAIN, CHAIN_LOCS)
+    r = rng.fork("enum-sample")
+    if thorough:
+        out += enum_lines(3, 2, "f", "3", "M", FULL, OBS3)
+        out += enum_lines(4, 2, "e", "3", "D", FULL, OBS3)
+        out += enum_lines(5, 2, "f", "3", "D", SMALL, OBS2)
+    else:
+        pick = r.below(64)
+        out += enum_lines(4, 2, "e", "3", "D", FULL, OBS3, keep=lambda i: i % 64 == pick)
+    # the runner cuts a stateless batch into contiguous parts: mix heavy and light lines
+    r.shuffle(out)
+    return out
+
+
+def api_lines():
+    """the rest of libs/log's public API, every small input"""
+    out = []
+    names = ["verbose", "debug", "info", "warning", "error", "fatal"]
+    words = names + [n.upper() for n in names[:2]] + [n.capitalize() for n in names[:2]] + [n[:-1] for n in names] + [n + "s" for n in names[:2]] \
+        + ["_", "x", "0", "3", "size", "fcppt_maximum", "warn", "inf", "debuginfo", "fatal.", "level::debug"]
+    out += [f"lfs {w}" for w in words]
+    out += [f"lts {k}" for k in range(6)] + [f"lout {k}" for k in range(6)]
+    for w in names + ["x", "Debug", "debu", "debugx"]:
+        out += [f"lin {w}$", f"lin _{w}$", f"lin {w}_$", f"lin __{w}_rest$", f"lin ~{w}~next_more$", f"lin {w}_{names[0]}$", f"lin {w},x$"]
+    out += ["lin $", "lin _$", "lin __~$", "lin _x_debug$"]
+    # location algebra: every program of <= 3 steps
+    firsts = ["e", "n:a", "n:b", "n:_"]
+    steps = ["d:a", "d:b", "d:_", "s:a", "s:b", "a:a", "m:b", "x"]
+    progs = [[f] for f in firsts]
+    for _ in range(3):
+        out += ["loc " + ",".join(p) for p in progs]
+        progs = [p + [s] for p in progs for s in steps]
+    out += ["loc " + ",".join(p) for p in progs]
+    out += ["loc n:root,d:child", "loc n:root,s:child", "loc e,d:root,d:child", "loc n:ab,d:c", "loc n:a,d:bc"]
+    # format::chain on every pair (the same object on both sides when equal), each formatter alone
+    fm = ["-", "F", "G", "P:a", "P:", "I:x:y", "I::", "I:x:", "L:0", "L:5"]
+    for f in fm:
+        out += [f"fn {f} t", f"fn {f} _"]
+        for g in fm:
+            out.append(f"chain {f} {g} t")
+    out += ["ts hello", "ts _"]
+    for own in ("-", "F", "L:2"):
+        for add in ("-", "G", "P:p"):
+            for redirect in "01":
+                out.append(f"ls {own} {add} {redirect} msg")
+    for k in range(6):
+        out += [f"dstream {k}", f"dls {k} msg"]
+    for n in ("a", "_", "child"):
+        out += [f"pnf {n} t"] + [f"params {n} {f} t" for f in ("-", "F", "P:p")]
+    return out
+
+
+def object_api_case(r):
+    """one context; objects through all constructors with every kind of formatter; formatter(), level_sink, level_streams,
+    context::level_streams, multi-part messages, macros (evaluation count), destruction in every order"""
+    ops = ["reset", ctx_line(r)]
+    kinds = ["-", "F", "P:p", "I:[:]", "L:1"]
+    nodes = []
+    for i, f in enumerate(kinds):
+        which = (i + r.below(3)) % 3
+        name = r.choice(["a", "b", "_"])
+        if which == 0 or not nodes:
+            ops.append(f"objr {name} {f}")
+            nodes.append([name])
+        elif which == 1:
+            loc = r.choice(paths(AB, 2))
+            ops.append(f"objl {loc_str(loc)} {name} {f}")
+            nodes.append(loc + [name])
+        else:
+            pid = r.below(len(nodes))
+            ops.append(f"objc {pid} {name} {f}")
+            nodes.append(nodes[pid] + [name])
+    ops.append(f"set {loc_str(r.choice(nodes)[:1])} {rand_level(r)}")
+    alive = list(range(len(nodes)))
+    order = list(alive)
+    r.shuffle(order)
+    for victim in order:
+        for i in alive:
+            ops.append(f"fmt {i} t")
+            ops.append(f"lvl {i}")
+            k = r.below(6)
+            ops += [f"logm {i} {k} m", f"log {i} {k} m", f"logp {i} {k} p {'q' * r.below(11)}x", f"loga {i} {k} first second{r.below(10)}",
+                    f"sink {i} {k} {rand_fmtx(r)} m", f"sink {i} {r.below(6)} @ m"]
+        ops.append(f"cstr {r.below(6)} {rand_fmtx(r)} m")
+        ops.append(f"del {victim}")
+        alive.remove(victim)
+        if alive and r.chance(1, 2):
+            ops.append(f"set {loc_str(nodes[r.choice(alive)])} {rand_level(r)}")
+    ops.append("get " + loc_str(nodes[0]))
+    return ops
+
+
+def matrix_cases():
+    """emission: every (level of the location) x (level of the message) x (stream configuration) x (log | FCPPT_LOG_*), the
+    level given by the context's root level, by a set before the object exists and by a set after it exists;
+    text: every location of depth <= 3 over the names a and the empty name x object formatter x stream configuration x
+    constructor"""
+    ops = []
+    levels = ["-"] + [str(k) for k in range(6)]
+    for cfg in CFGS:
+        for lv in levels:
+            for how in range(3):
+                ops += ["reset"]
+                if how == 0:
+                    ops += [f"ctx {lv} {cfg}", "objr a F"]
+                elif how == 1:
+                    ops += [f"ctx 3 {cfg}", f"set a {lv}", "objl - a F"]
+                else:
+                    ops += [f"ctx 3 {cfg}", "objr a F", f"set - {lv}"]
+                ops.append("lvl 0")
+                for k in range(6):
+                    ops += [f"log 0 {k} m{k}", f"logm 0 {k} m{k}"]
+    for cfg in CFGS:
+        for loc in paths(["a", "_"], 2):
+            for name in ("a", "_"):
+                for f in ("-", "F"):
+                    ops += ["reset", f"ctx 0 {cfg}", f"objl {loc_str(loc)} {name} {f}", "log 0 5 m", "logm 0 0 m", "fmt 0 t"]
+                    if loc:
+                        # the same node through the other two constructors
+                        ops += [f"objl {loc_str(loc[:-1])} {loc[-1]} G", f"objc 1 {name} {f}", "log 2 4 m", "fmt 2 t"]
+                    else:
+                        ops += [f"objr {name} {f}", "log 1 4 m", "fmt 1 t"]
+    return ops
+
+
 def batches(rng, tier):
     thorough = tier == "thorough"
     GEN_STATS.clear()
@@ -375,6 +916,38 @@ def batches(rng, tier):
         return Batch(name, ops, kind="history", note=note)
 
     yield mk("docs-example", DOCS_EXAMPLE, "examples/log/context.cpp step by step (macros, object::log, object formatters, bare reset)")
+
+    def mks(name, ops, note):
+        _account(name, ops)
+        return Batch(name, ops, kind="stateless", exhaustive=True, note=note)
+
+    yield mks("small-histories", small_history_lines(rng, thorough),
+              "digest lines: EVERY history of <= 3 state-changing operations (45 sets over the 15 locations of depth <= 3 over a,b x "
+                     "levels 1,3,-; objr; objl; objc on the first two objects) on a context with root warning, observed after every step "
+                     "(get of all 15 locations, level/enabled of every object, one log or FCPPT_LOG_* per object); the same observed only at "
+                     "the end; every history of exactly 4 operations over the depth-2 alphabet (33 operations); root - / 1 and stream "
+                     "configurations N / M over the 26-operation alphabet; the alphabets with the empty name, with the name pairs a/ab, a/A, a/ba and with one chain a.a.a.a.a (depth 5, observed to depth 6); quick: 1/64 of the 4-operation "
+                     "histories over the full alphabet (thorough: all, plus all 5-operation histories over the 26-operation alphabet)")
+    yield mks("api-exhaustive", api_lines(),
+              "level_from_string / level_to_string / operator<< / operator>> on every name and near-miss; every location program of "
+                     "<= 3 steps (ctor, /=, /, string(), begin/end); format::chain on all pairs of 10 formatters (same object on both sides "
+                     "when equal), prefix / inserter / default_level / time_stamp; level_stream ctor, sink(), get(), formatter(), log; "
+                     "default_stream, default_level_streams; parameters, parameters_no_function")
+
+    yield Batch("emit-and-text-matrix", matrix_cases(), kind="history", exhaustive=True,
+                note="emission: all 7 levels of the location (from the root level / a set before / a set after the object exists) x all 6 "
+                     "message levels x stream formatters D,N,M x object::log and FCPPT_LOG_*; text: every location of depth <= 3 over a and "
+                     "the empty name x object formatter none/tag x D,N,M, the node reached through each of the three constructors")
+    _account("emit-and-text-matrix", matrix_cases())
+
+    r = rng.fork("object-api")
+    ops = []
+    for _ in range(300 if thorough else 40):
+        ops += object_api_case(r)
+    yield mk("object-api", ops,
+             "five objects (formatter none / tag / prefix / inserter / default_level) through all constructors, then formatter(), level, "
+             "FCPPT_LOG_* (evaluation count), log, a multi-part message, level_sink().log, context::level_streams() on every live object, "
+             "destroying the objects one by one in a random order")
 
     r = rng.fork("histories")
     ops = []
